@@ -613,11 +613,30 @@ class Zeroconf(QuietLogger):
         for i in range(_REGISTER_BROADCASTS):
             if i != 0:
                 await asyncio.sleep(millis_to_seconds(_UNREGISTER_TIME))
-            if key is not None and self.registry.async_get_info_name(key) is not None:
-                # The name was registered again in the meantime, another
-                # goodbye would withdraw the new registration
-                return
+            if key is not None:
+                current = self.registry.async_get_info_name(key)
+                if current is not None:
+                    # The name was registered again in the meantime, a goodbye
+                    # for what is advertised now would withdraw the new
+                    # registration. What the new registration (and the other
+                    # services of its host) does not have is still withdrawn
+                    remaining = self._goodbye_without_advertised(out, current)
+                    if remaining is None:
+                        return
+                    out = remaining
             self.async_send(out)
+
+    def _goodbye_without_advertised(self, out: DNSOutgoing, current: ServiceInfo) -> Optional[DNSOutgoing]:
+        """The records of a goodbye that the service registered under that name now does not advertise."""
+        advertised: Set[DNSRecord] = {current.dns_pointer(), current.dns_service(), current.dns_text()}
+        assert current.server_key is not None
+        for other in self.registry.async_get_infos_server(current.server_key):
+            advertised.update(other.get_address_and_nsec_records())
+        remaining = DNSOutgoing(_FLAGS_QR_RESPONSE | _FLAGS_AA)
+        for record, _ in out.answers:
+            if record not in advertised:
+                remaining.add_answer_at_time(record, 0)
+        return remaining if remaining.answers else None
 
     async def _async_broadcast_address_goodbyes(self, withdrawn: List[DNSRecord], server_key: str) -> None:
         """Withdraw the addresses an update took away from a host, at intervals."""
